@@ -15,14 +15,14 @@ META = {
     "level": "exploration",
     "text": "TLC enumerates structural shapes of malformed documents (all digraphs on up to 3 (quick) / 4 (thorough, sampled) nodes per "
             "traversed relation with cycles, self loops, shared, dangling and wrong-typed targets; nesting depths limit-1, limit, limit+1, "
-            "10x limit, 10^4/10^5 and 10^6 levels; truncations and length-field mutations of a font, certificates, PKCS#7, JSON/CSV form "
+            "10x limit, 5000/10^5 and 10^5/10^6 levels; truncations and length-field mutations of a font, certificates, PKCS#7, JSON/CSV form "
             "data; value classes written over structural fields of valid PDFs incl. encrypted and signed ones). Each is concretised "
             "byte by byte and fed to read, validate (strict/relaxed), optimize, info, extraction, page operations, stamping, form, "
             "bookmark, signature-validation and import entry points in child processes; TLC judges every outcome to be a result or an error.",
     "note": "This decides the structural part of the property; it is not a byte-level fuzzer. Trusted: the raw emitter, the child "
-            "protocol (panic recovery, crash attribution), debug.SetMaxStack (64 MB thorough, 6 MB with 10^4 levels quick: about 640 bytes "
-            "of stack per level) and the CPU budget (1.5 s + 20 us/byte of process CPU time per operation, a timeout is re-run once with "
-            "4x the budget before it counts); quick runs the core entry points plus those that traverse the relation, thorough all.",
+            "protocol (panic recovery, crash attribution), debug.SetMaxStack (64 MB with 10^5 levels thorough, 3 MB with 5000 levels quick: about 640 bytes "
+            "of stack per level) and the CPU budget (0.4 s quick / 1.5 s thorough + 20 us/byte of process CPU time per operation, a timeout is re-run "
+            "once with 3x the budget before it counts); quick runs the core entry points plus those that traverse the relation, thorough all.",
     "technique": "TLA+ shape model enumerated by TLC, shapes concretised into real inputs and replayed into the real entry points in sandboxed child processes; outcomes judged by TLC",
     "design_ref": "DESIGN.md §5 C08",
 }
@@ -55,10 +55,10 @@ def run(ctx):
                 raise vlib.HarnessError("no shapes of family %s" % f)
         rec = os.path.join(d, "records.ndjson")
         if ctx.quick:
-            mutk, trunck, stack, ops, cpums = "12", "12", "6", "core", "400"
+            mutk, trunck, stack, ops, cpums = "12", "12", "3", "core", "400"
         else:
             mutk, trunck, stack, ops, cpums = "60", "40", "64", "all", "1500"
-        p = vlib.sh([binp, "c08", "--in", cases, "--out", rec, "--repo", vlib.REPO, "--workers", "8", "--mutk", mutk, "--trunck", trunck,
+        p = vlib.sh([binp, "c08", "--in", cases, "--out", rec, "--repo", vlib.REPO, "--workers", "6", "--mutk", mutk, "--trunck", trunck,
                      "--maxstack-mb", stack, "--cpu-ms", cpums, "--cpu-ns-per-byte", "20000", "--ops", ops], timeout=3500)
         summ = _summary(p)
         rows = vlib.read_ndjson(rec)
@@ -123,9 +123,9 @@ def run(ctx):
                traces_validated_against_impl=len(rows), shapes=ncase, shapes_by_family=dict(fam), skipped=len(rows) - len(done),
                outcomes=dict(outs), died=summ["dead"], timeouts_not_confirmed=summ["timeouts_not_confirmed"],
                max_op_ms=max(r["maxms"] for r in rows), exhaustive=False)
-        ev.assume("stack limit %s MB (debug.SetMaxStack) with chains of %s levels: an unguarded recursion needs about 640 bytes of stack per level to be seen" % (stack, "10^4" if ctx.quick else "10^5"),
-                  "time bound per operation: 1.5 s + 20 us per input byte of process CPU time (confirmed once with 4x the budget), wall clock backstop 300 s + 0.4 ms per byte",
-                  "after two confirmed timeouts on one input the remaining operations on it are not run and not judged",
+        ev.assume("stack limit %s MB (debug.SetMaxStack) with chains of %s levels: an unguarded recursion needs about 640 bytes of stack per level to be seen" % (stack, "5000" if ctx.quick else "10^5"),
+                  "time bound per operation: %s ms + 20 us per input byte of process CPU time (confirmed once with 3x the budget), wall clock backstop 300 s + 0.4 ms per byte" % cpums,
+                  "after two confirmed timeouts on one input the remaining operations on it are not run and not judged; after two deaths of an entry point on shapes of one relation it is not run on the remaining cyclic shapes of that relation (the relation is reported)",
                   "not a byte-level fuzzer: the space is the structural shapes of Robust.tla",
                   "harness built with go1.26.8")
     finally:
